@@ -374,6 +374,27 @@ func (w *e1World) step(c *sim.Ctx, prop string, i int, o fsx.Op, env *fsx.Env, u
 	as := w.snap.String()
 
 	if o.K == "RemoveAll" && out.a.Err != "ok" {
+		// what it leaves behind need not be what the kernel leaves, but it must be a tree: every listed name exists.
+		for k := range w.snap.Nodes {
+			if n := &w.snap.Nodes[k]; n.Type == '!' {
+				out.violation = &sim.Violation{
+					Prop: "C05", Class: "structure", Sig: w.kind + " after a RemoveAll that failed a directory lists a name that Lstat does not find",
+					Msg: fmt.Sprintf("call %d %s (%s): %s is listed by its directory but Lstat answers %s", i, o, out.a.Err, n.Path, n.Err),
+				}
+
+				return out
+			}
+		}
+
+		for _, pr := range w.snap.Problems {
+			out.violation = &sim.Violation{
+				Prop: "C05", Class: "structure", Sig: w.kind + " after a RemoveAll that failed the tree is not well formed",
+				Msg: fmt.Sprintf("call %d %s (%s): %s", i, o, out.a.Err, pr),
+			}
+
+			return out
+		}
+
 		// a RemoveAll that fails removes what it can, in an order that is not specified: the administrator
 		// finishes the job on both sides, after which the trees must agree again.
 		target := o.P
